@@ -139,19 +139,21 @@ theorem C02_switch_runs_are_reachable (P : Program) (s : St) (h : LiveReach P s)
 
 /-- **no lost wake-up at node completion**: in the state the normal exit of `_run_node` for node `u` leaves behind, no
 *other* task is blocked on `cond[m]` for a node `m` that reads `u` directly (`e.u = u`, `e.v = m`) or reads a switch node
-that `u` feeds (`u → S → m`), nor on `cond['run']`, nor on the event of `u` -/
+that `u` feeds (`u → S → m`), nor on `cond['run']`, nor on the event of `u`, nor on `cond[u]` itself (a one-of waits there
+for its candidate, whichever DAG executed it: fix 07dff2b) -/
 theorem C02_finished_node_wakes_every_consumer (c : Ctx) (s : St) (obs : List Obs) (d : DagRef) (u : Node)
     (below : List Frame) (hn : 2 ≤ c.P.g.nodes.length) (i : Nat) (hi : i ≠ c.t) (tk : Task)
     (htk : (nodeFinish c s obs d u below).1.tasks[i]? = some tk) :
     (∀ e ∈ c.P.g.edges, e.u = u → tk.st ≠ .blocked (.cond (.node e.v))) ∧
     (∀ e1 ∈ c.P.g.edges, ∀ e2 ∈ c.P.g.edges, e1.u = u → e1.v = e2.u → c.P.g.isSwitch e1.v = true →
       tk.st ≠ .blocked (.cond (.node e2.v))) ∧
-    tk.st ≠ .blocked (.cond .run) ∧ tk.st ≠ .blocked (.event u) := by
-  obtain ⟨h1, h2, h3, _⟩ := nodeFinally_wakes c.P s d u
+    tk.st ≠ .blocked (.cond .run) ∧ tk.st ≠ .blocked (.event u) ∧ tk.st ≠ .blocked (.cond (.node u)) := by
+  obtain ⟨h1, h2, h3, h4⟩ := nodeFinally_wakes c.P s d u
   have hsame : ∀ j, j ≠ c.t → (nodeFinish c s obs d u below).1.tasks[j]? = (nodeFinally c.P s d u true).tasks[j]? :=
     fun j hj => retTo_others c _ obs below .none j hj
   have hne : c.P.g.nodes ≠ [] := by intro h0; rw [h0] at hn; simp at hn
-  refine ⟨?_, ?_, others_not_blocked hsame h2 i hi tk htk, others_not_blocked hsame h1 i hi tk htk⟩
+  refine ⟨?_, ?_, others_not_blocked hsame h2 i hi tk htk, others_not_blocked hsame h1 i hi tk htk,
+    others_not_blocked hsame h4 i hi tk htk⟩
   · intro e he hu
     refine others_not_blocked hsame (h3 e.v ?_) i hi tk htk
     rw [← hu]; exact mem_desc1_of_edge c.P.g e he hne
